@@ -144,6 +144,7 @@ Fixpoint apply_cor (n : nat) (l : list N) (data obd : bytes) : bytes * bytes * l
         else if w =? 2 then apply_cor k rest (zero_from data pos) obd
         else if w =? 4 then apply_cor k rest (firstn (N.to_nat pos) data) obd
         else if w =? 5 then apply_cor k rest (data ++ repeat 90%uint63 (N.to_nat pos)) obd
+        else if w =? 6 then apply_cor k rest data (firstn (N.to_nat pos) obd)
         else apply_cor k rest data (zero_from obd pos)
     | _ => (data, obd, [])
     end
@@ -608,7 +609,24 @@ Definition pad5 (l : list N) : list N := match l with [x] => [x; 0; 0; 0; 0] | _
 Definition run_agree_enc (a : list N) : list N :=
   flat_map (fun e => pad5 (run_encode (set_nth a 4 e))) [0; 1; 2; 3; 4].
 Definition run_agree_dec (a : list N) : list N :=
-  flat_map (fun d => let r := run_decode (set_nth a 5 d) in N.of_nat (length r) :: r) [0; 1; 2; 3].
+  flat_map (fun d => let r := run_decode (set_nth a 5 d) in N.of_nat (length r) :: r) [0; 1; 2; 3; 4].
+(* the four validators side by side (args as validate; the validator field is overwritten) *)
+Definition run_agree_val (a : list N) : list N :=
+  flat_map (fun v => let r := run_validate (set_nth a 4 v) in N.of_nat (length r) :: r) [0; 1; 2; 3].
+Fixpoint split_lens (fuel : nat) (o : list N) : list (list N) :=
+  match fuel with
+  | O => []
+  | S f => match o with
+           | [] => []
+           | n :: r => firstn (N.to_nat n) r :: split_lens f (skipn (N.to_nat n) r)
+           end
+  end.
+(* C06 / C08: the sync and the async validator of each flavour report the same ranges and the same outcome *)
+Definition holds_agree_val (a o : list N) : bool :=
+  match split_lens 5 o with
+  | [v0; v1; v2; v3] => list_eqb v0 v2 && list_eqb v1 v3 && negb (existsb (fun x => x =? PANIC) o)
+  | _ => false
+  end.
 Definition pad7 (l : list N) : list N := match l with [x] => [x; 0; 0; 0; 0; 0; 0] | _ => l end.
 Definition run_agree_ob (a : list N) : list N :=
   flat_map (fun e => pad7 (run_outboard (a ++ [e]))) [0; 1; 2; 3; 4; 5; 6; 7; 8; 9; 10; 11; 12; 13; 14; 15; 16; 17; 18].
@@ -644,9 +662,11 @@ Fixpoint split_lp (l : list N) (fuel : nat) : list (list N) :=
 (* same items, same error variant and payload for the iterator drivers; same result, target and
    outboard for the two decode_ranges drivers *)
 Definition holds_agree_dec (a o : list N) : bool :=
-  match split_lp o 5 with
-  | [d0; d1; d2; d3] =>
+  match split_lp o 6 with
+  | [d0; d1; d2; d3; d4] =>
       negb (existsb (fun x => x =? PANIC) o) &&
+      (* the two constructors of the sync iterator (new, new_with_buffer on a recycled buffer) behave alike *)
+      list_eqb d0 d4 &&
       (* outcome, payload, io kind, consumed *)
       list_eqb (firstn 4 d0) (firstn 4 d1) && list_eqb (skipn 9 d0) (skipn 9 d1) &&
       list_eqb (firstn 4 d2) (firstn 4 d3) && list_eqb (skipn 6 d2) (skipn 6 d3) &&
